@@ -199,7 +199,10 @@ class Constraints(object):
                                          k_genuine_vec[i],
                                          k_impostor_vec[i])
 
-    return triplets
+    # the triplets index the array of labeled samples: map them back to
+    # indices in the arrays given by the caller
+    known_labels_idx, = np.where(known_labels_mask)
+    return known_labels_idx[triplets]
 
   def _pairs(self, n_constraints, same_label=True, max_iter=10,
              random_state=np.random):
